@@ -283,6 +283,7 @@ func c19Configs(thorough bool) []projCfg {
 }
 
 func c19Main(r *engine.Run) {
+	defer c19Centres(r)
 	r.Rule = "9 projections × configurations (centres/origins on a 30° lattice of the sphere incl. poles and ±180; standard parallel pairs over {±10,±30,±60}² in both orders minus the singular ones; radii 1 and WGS84 mean; zoom 0..30) × points on a graticule (step below) and on a second graticule shifted by 0.37° (enumeration replaces the quantifier's random points), clipped to each implementation's one-to-one domain, plus the centre/origin and points on the standard parallels: Forward finite, Reverse∘Forward within 1e-9°, local character by central differences (equal area, conformality, equidistance, true scale on standard parallels, Web Mercator square and orientation). non-trivial = (configuration, point) pairs with a character check. The check covers lattice nodes only; nothing is claimed between nodes"
 	cfgs := c19Configs(r.Thorough())
 	step := 5.0
@@ -348,6 +349,25 @@ func c19Main(r *engine.Run) {
 	}) {
 		r.Bound(fmt.Sprintf("%d configurations × graticule step %v° (1° for every 97th configuration) and its 0.37° shift, clipped to the one-to-one domain; centre/origin; standard parallels", len(cfgs), step))
 	}
+}
+
+// c19Centres: the azimuthal projections at their own centre, for every integer centre of the sphere
+// (the property claims exactness "including exactly at the projection centre" for "centres over the whole sphere").
+func c19Centres(r *engine.Run) {
+	n := 0
+	for _, name := range []string{"AzimuthalEquidistant", "Orthographic"} {
+		for _, R := range []float64{1, carto.WGS84EllipsoidMeanRadiusM} {
+			for lon := -180; lon <= 180; lon++ {
+				for lat := -89; lat <= 89; lat++ {
+					c := projCfg{Name: name, R: R, Center: []float64{float64(lon), float64(lat)}}
+					c19Point(r, c, c.build(), float64(lon), float64(lat), false)
+					n++
+				}
+			}
+		}
+	}
+	r.States.Add(int64(n))
+	r.Bound(fmt.Sprintf("azimuthal projections at their own centre for every integer centre (lon -180..180, lat -89..89) × 2 radii: %d configurations", n))
 }
 
 func c19Replay(r *engine.Run, sub string, raw json.RawMessage) error {
